@@ -1583,7 +1583,61 @@ func c07PollerClosesOnVerdictOnly(w *World, r *Report) {
 					return false
 				}
 			}
-			ok := dominatedByCond(fn, at, identity(token.EQL), true) || dominatedByCond(fn, at, identity(token.NEQ), false)
+			// the verdict made by a helper that is handed the exchange's error: `failures.record(err)` answers true
+			// only after an identity test of that error against the one remembered
+			viaHelper := func(v ssa.Value) bool {
+				hc, isCall := v.(*ssa.Call)
+				if !isCall {
+					return false
+				}
+				h := hc.Call.StaticCallee()
+				if h == nil || !inModule(h) || len(h.Blocks) == 0 {
+					return false
+				}
+				pi := -1
+				for i, a := range hc.Call.Args {
+					if !isErrorType(a.Type()) {
+						continue
+					}
+					for _, e := range exch {
+						for _, root := range provenance(a, provOpts{}) {
+							if root == ssa.Value(e) {
+								pi = i
+							}
+						}
+					}
+				}
+				if pi < 0 || pi >= len(h.Params) {
+					return false
+				}
+				isParam := func(x ssa.Value) bool {
+					for _, root := range provenance(x, provOpts{}) {
+						if root == ssa.Value(h.Params[pi]) {
+							return true
+						}
+					}
+					return false
+				}
+				return predicateHelperImplies(h, true, func(facts map[ssa.Value]bool) bool {
+					for v2, t2 := range facts {
+						b, isB := v2.(*ssa.BinOp)
+						if !isB || !isErrorType(b.X.Type()) || !isErrorType(b.Y.Type()) {
+							continue
+						}
+						if c, isC := b.X.(*ssa.Const); isC && c.IsNil() {
+							continue
+						}
+						if c, isC := b.Y.(*ssa.Const); isC && c.IsNil() {
+							continue
+						}
+						if (b.Op == token.EQL && t2 || b.Op == token.NEQ && !t2) && (isParam(b.X) || isParam(b.Y)) {
+							return true
+						}
+					}
+					return false
+				})
+			}
+			ok := dominatedByCond(fn, at, identity(token.EQL), true) || dominatedByCond(fn, at, identity(token.NEQ), false) || dominatedByCond(fn, at, viaHelper, true)
 			r.Check(ok, "R07.19", key, w.Pos(c.Pos()), "the close depends on an identity test of the exchange's error (a sentinel from the server, or the very same error value as the round before)",
 				"the background poller can close the connection without an identity test of the exchange's error: failures that are a fresh value every round (time-outs, refused sockets) add up to a close, and the chunk that was accepted and is waiting for retransmission is dropped — 'once the path stops losing, everything accepted arrives' no longer holds")
 		}
